@@ -287,7 +287,7 @@ def mix(rng, core, extra):
     return out
 
 
-def gen_attack(rng, method, kind, decoy, n):
+def gen_attack(rng, method, kind, decoy, n, force_decl=None):
     """One term of the grammar for `method`.  `decoy` = path of the decoy file, `n` a serial for names."""
     file_uri = "file://" + decoy
     http_uri = "http://127.0.0.1:9/c19-%d.dtd" % n
@@ -295,7 +295,7 @@ def gen_attack(rng, method, kind, decoy, n):
     sq = rng.random() < 0.3
     name = rng.choice(["e", "xxe", "E1", "a.b", "_e"])
     fill = filler_items(rng, rng.choice([0, 0, 1, 3]))
-    before = gen_before(rng)
+    before = gen_before(rng, force_decl)
     after = [("space", rng.choice(WS))] if rng.random() < 0.3 else []
     ext = rng.choice([None, None, ("system", lit("urn:x")), ("public", lit("-//X//DTD Y//EN"), lit(file_uri, True))])
     where = rng.choice(["text", "text", "attr"])
